@@ -332,7 +332,9 @@ func (h *DNSHandler) putMDNSCache(mac net.HardwareAddr, id uint16, ipv4 []packet
 	copy(key, mac)
 	key[6] = byte(id >> 8)
 	key[7] = byte(id)
-	h.mdnsCache[string(key)] = cache{id: id, ipv4: ipv4, ipv6: ipv6, expiry: time.Now().Add(time.Minute * 5)}
+	if h.mdnsCache != nil { // nil after Close()
+		h.mdnsCache[string(key)] = cache{id: id, ipv4: ipv4, ipv6: ipv6, expiry: time.Now().Add(time.Minute * 5)}
+	}
 	h.mutex.Unlock()
 }
 
